@@ -778,3 +778,93 @@ Proof.
   - unfold log2R. rewrite ln_1. lra.
   - rewrite log2_mult; auto. + rewrite IH; auto. + apply prodR_pos; auto.
 Qed.
+
+Local Open Scope Q_scope.
+(* ------------------------------------------------------------------------------------ *)
+(* nx_eqb / bx_eqb (literals compared with ==) accept only skeletons with the same value *)
+Scheme nx_mut := Induction for nx Sort Prop
+  with bx_mut := Induction for bx Sort Prop.
+Combined Scheme nx_bx_ind from nx_mut, bx_mut.
+
+Definition oxq_eq (a b : option xq) : Prop :=
+  match a, b with Some x, Some y => xq_eq x y | None, None => True | _, _ => False end.
+
+Lemma colref_eqb_eq a b : colref_eqb a b = true -> a = b.
+Proof. destruct a, b; cbn; try discriminate; intros H; apply Nat.eqb_eq in H; congruence. Qed.
+
+Lemma Qle_bool_compat a a' b b' : a == a' -> b == b' -> Qle_bool a b = Qle_bool a' b'.
+Proof. intros H1 H2. apply eq_true_iff_eq. rewrite !Qle_bool_iff, H1, H2. reflexivity. Qed.
+Lemma Qeq_bool_compat a a' b b' : a == a' -> b == b' -> Qeq_bool a b = Qeq_bool a' b'.
+Proof. intros H1 H2. apply eq_true_iff_eq. rewrite !Qeq_bool_iff, H1, H2. reflexivity. Qed.
+
+Lemma xq_eqb_compat a a' b b' : xq_eq a a' -> xq_eq b b' -> xq_eqb a b = xq_eqb a' b'.
+Proof. destruct a, a', b, b'; cbn; try tauto. apply Qeq_bool_compat. Qed.
+Lemma xq_leb_compat a a' b b' : xq_eq a a' -> xq_eq b b' -> xq_leb a b = xq_leb a' b'.
+Proof. destruct a, a', b, b'; cbn; try tauto. apply Qle_bool_compat. Qed.
+Lemma xadd_compat a a' b b' : xq_eq a a' -> xq_eq b b' -> xq_eq (xadd a b) (xadd a' b').
+Proof. destruct a, a', b, b'; cbn; auto; try tauto. intros H1 H2. rewrite H1, H2. reflexivity. Qed.
+Lemma xdiv_compat a a' b b' : xq_eq a a' -> xq_eq b b' -> xq_eq (xdiv a b) (xdiv a' b').
+Proof. destruct a, a', b, b'; cbn; auto; try tauto; try reflexivity; intros H1 H2; try rewrite H1; try rewrite H2; reflexivity. Qed.
+
+Section EqbSound.
+  Variable pow : Q -> Q -> Q.
+  Hypothesis pow_compat : forall a a' b b', a == a' -> b == b' -> pow a b == pow a' b'.
+
+  Lemma xpow_compat a a' b b' : xq_eq a a' -> xq_eq b b' -> xq_eq (xpow pow a b) (xpow pow a' b').
+  Proof. destruct a, a', b, b'; cbn; auto; try tauto. Qed.
+
+  Lemma lift2_compat f (Hf : forall a a' b b', xq_eq a a' -> xq_eq b b' -> xq_eq (f a b) (f a' b')) x x' y y' :
+    oxq_eq x x' -> oxq_eq y y' -> oxq_eq (lift2 f x y) (lift2 f x' y').
+  Proof. destruct x, x', y, y'; cbn; auto; try tauto. Qed.
+
+  Lemma cmp3_compat f (Hf : forall a a' b b', xq_eq a a' -> xq_eq b b' -> f a b = f a' b') x x' y y' :
+    oxq_eq x x' -> oxq_eq y y' -> cmp3 f x y = cmp3 f x' y'.
+  Proof. destruct x, x', y, y'; cbn; auto; try tauto. intros H1 H2. rewrite (Hf _ _ _ _ H1 H2). reflexivity. Qed.
+
+  Ltac ev2 := repeat (progress (rewrite ?ne_col, ?ne_lit, ?ne_inf, ?ne_null, ?ne_coal, ?ne_mul, ?ne_div, ?ne_add, ?ne_pow, ?ne_if,
+                     ?be_cond, ?be_eq, ?be_ge, ?be_gt, ?be_and, ?be_or, ?be_notnull)).
+  Theorem eqb_sound :
+    (forall a b, nx_eqb a b = true ->
+       forall env env' conds, (forall c, oxq_eq (env c) (env' c)) ->
+       oxq_eq (neval pow env conds a) (neval pow env' conds b)) /\
+    (forall a b, bx_eqb a b = true ->
+       forall env env' conds, (forall c, oxq_eq (env c) (env' c)) ->
+       beval pow env conds a = beval pow env' conds b).
+  Proof.
+    apply nx_bx_ind.
+    - intros c [] H; try discriminate. apply colref_eqb_eq in H. subst. intros; ev2; cbn; auto.
+    - intros q [] H; try discriminate. apply Qeq_bool_iff in H. intros; ev2; cbn; auto.
+    - intros [] H; try discriminate. intros; ev2; cbn; auto.
+    - intros [] H; try discriminate. intros; ev2; cbn; auto.
+    - intros a IHa b IHb [] H; try discriminate. apply andb_prop in H. destruct H as [H1 H2].
+      intros env env' conds He. ev2. specialize (IHa _ H1 _ _ conds He). specialize (IHb _ H2 _ _ conds He).
+      destruct (neval pow env conds a), (neval pow env' conds a0); cbn in IHa; auto; tauto.
+    - intros a IHa b IHb [] H; try discriminate. apply andb_prop in H. destruct H as [H1 H2].
+      intros env env' conds He. ev2. apply lift2_compat; auto. apply xmul_compat.
+    - intros a IHa b IHb [] H; try discriminate. apply andb_prop in H. destruct H as [H1 H2].
+      intros env env' conds He. ev2. apply lift2_compat; auto. apply xdiv_compat.
+    - intros a IHa b IHb [] H; try discriminate. apply andb_prop in H. destruct H as [H1 H2].
+      intros env env' conds He. ev2. apply lift2_compat; auto. apply xadd_compat.
+    - intros a IHa b IHb [] H; try discriminate. apply andb_prop in H. destruct H as [H1 H2].
+      intros env env' conds He. ev2. apply lift2_compat; auto. apply xpow_compat.
+    - intros c IHc t IHt e IHe [] H; try discriminate. apply andb_prop in H. destruct H as [H H3].
+      apply andb_prop in H. destruct H as [H1 H2].
+      intros env env' conds He. ev2. rewrite (IHc _ H1 _ _ conds He).
+      destruct (isT (beval pow env' conds c0)); auto.
+    - intros i [] H; try discriminate. apply Nat.eqb_eq in H. subst. intros; ev2; cbn; auto.
+    - intros a IHa b IHb [] H; try discriminate. apply andb_prop in H. destruct H as [H1 H2].
+      intros env env' conds He. ev2. apply cmp3_compat; auto. apply xq_eqb_compat.
+    - intros a IHa b IHb [] H; try discriminate. apply andb_prop in H. destruct H as [H1 H2].
+      intros env env' conds He. ev2. apply cmp3_compat; auto. intros; apply xq_leb_compat; auto.
+    - intros a IHa b IHb [] H; try discriminate. apply andb_prop in H. destruct H as [H1 H2].
+      intros env env' conds He. ev2. apply cmp3_compat; auto.
+      intros. unfold xq_ltb. f_equal. apply xq_leb_compat; auto.
+    - intros a IHa b IHb [] H; try discriminate. apply andb_prop in H. destruct H as [H1 H2].
+      intros env env' conds He. ev2. rewrite (IHa _ H1 _ _ conds He), (IHb _ H2 _ _ conds He). reflexivity.
+    - intros a IHa b IHb [] H; try discriminate. apply andb_prop in H. destruct H as [H1 H2].
+      intros env env' conds He. ev2. rewrite (IHa _ H1 _ _ conds He), (IHb _ H2 _ _ conds He). reflexivity.
+    - intros a IHa [| | | | | |a'] H; try discriminate. intros env env' conds He. ev2.
+      specialize (IHa _ H _ _ conds He).
+      destruct (neval pow env conds a), (neval pow env' conds a'); cbn in IHa; auto; tauto.
+  Qed.
+End EqbSound.
